@@ -77,13 +77,32 @@ def generate(families, tag, deep=None):
     return cases, stats
 
 
+def builders(cases):
+    """For every generated program whose root type the client's builder API can spell (b.Object, b.Array, b.Const, buntyped.Union,
+    createNamedType, ...): the same type built at run time instead of compiled - same probes, same reference verdicts."""
+    out, seen = [], set()
+    for c in cases:
+        if c.get("fam") == "util":
+            continue
+        e = vlib.b_expr(c["ty"], c["env"])
+        if e is None or e in seen:
+            continue
+        seen.add(e)
+        b = {k: v for k, v in c.items() if not k.startswith("_")}
+        b["via"] = "b"
+        b["_bexpr"] = e
+        b["_src"] = "// built with the client's builder API, not compiled\nconst T = " + e + ";\n\n"
+        out.append(b)
+    return out
+
+
 def observe(cases, tag, ops=("validate",)):
     """Compile and run every case; returns list of trace records (one per program)."""
     reqs = []
     for i, c in enumerate(cases):
         src = c.get("_src") or vlib.render_program(c["env"], c["ty"])
         c["_src"] = src
-        reqs.append(vlib.compile_req(i, [("entry.ts", src)]))
+        reqs.append(vlib.build_req(i, c["_bexpr"]) if c.get("via") == "b" else vlib.compile_req(i, [("entry.ts", src)]))
     t0 = time.time()
     comp = vlib.compile_all(reqs)
     log(f"[compile] {len(reqs)} programs in {time.time() - t0:.1f}s")
@@ -91,7 +110,7 @@ def observe(cases, tag, ops=("validate",)):
     for i, (c, r) in enumerate(zip(cases, comp)):
         c["_comp"] = r
         if r["outcome"] == "code":
-            jobs.append({"id": i, "code": r["code"], "root": "T", "reqS": [], "reqN": [],
+            jobs.append({"id": i, "code": r["code"], "build": r.get("build"), "root": "T", "reqS": [], "reqN": [],
                          "probes": [p["v"] for p in c["probes"]], "ops": list(ops)})
     t0 = time.time()
     obs = vlib.run_driver(jobs, tag)
